@@ -136,6 +136,9 @@ def run(ctx):
             continue
         m = model[cid]
         if impl != m:
+            if gen_common.reworded_ok(r, m):
+                hist["reworded_message"] += 1
+                continue
             diffs.append((cid, impl, m))
     acc = hist["ok"] / max(1, len(cases))
     # whole-pipeline phase (Pipeline.v): only disagreements attributable to the layout passes are C11's
